@@ -224,6 +224,10 @@ func scenariosFor(tier string) []vrt.Scenario {
 		{"cancel-in-first-stage", []stageCfg{{0, ab1}, {0, a2}}, 150 * time.Millisecond, 0, false, nil, false},
 		{"cancel-at-stage-boundary", []stageCfg{{0, ab1}, {0, a2}}, 300 * time.Millisecond, 0, false, nil, false},
 		{"no-parameters", []stageCfg{{0, nil}, {0, a}}, -1, 0, false, nil, false},
+		// parameter names the operating system rejects (an "=" inside, the empty name) next to ordinary ones: the ordinary
+		// ones are all present while the stage triggers (map order is the runtime's: with four bad names among seven a
+		// loop that gives up at the first rejected one leaves something unset in 34 of 35 stage entries)
+		{"names-the-os-rejects-next-to-ordinary-ones", []stageCfg{{0, map[string]string{"VERIF_A": "1", "VERIF_B": "2", "VERIF_C": "3", "BAD=NAME": "x", "": "y", "=": "z", "A=B=C": "w"}}, {0, map[string]string{"VERIF_A": "4", "VERIF_C": "5", "BAD=NAME": "x", "": "y", "=lead": "z"}}}, -1, 0, false, nil, false},
 		{"limit-reached-in-first-stage", []stageCfg{{0, a}, {0, ab1}, {0, a2}}, -1, 2, false, nil, false},
 		{"limit-reached-in-users-stage", []stageCfg{{1, ab1}, {0, a2}}, -1, 1, false, nil, false},
 	}
@@ -231,6 +235,7 @@ func scenariosFor(tier string) []vrt.Scenario {
 	out = append(out, scenario(cfgs[0]).WithPlainPoints(1), scenario(cfgs[2]).WithPlainPoints(1))
 	for _, c := range cfgs {
 		s := scenario(c)
+		s.UnorderedSUT = strings.HasPrefix(c.name, "names-the-os-rejects") // setEnvs ranges over the parameter map
 		s.Bound = 1
 		if tier != "quick" {
 			s.Bound = 2
